@@ -170,14 +170,14 @@ impl Director {
                 let rotation = rotator.rotator;
 
                 let (roll, pitch, yaw) = rotation.euler_angles();
-                if (roll > 35.0_f32.to_radians() || pitch > 35.0_f32.to_radians()) && yaw == 0.0 {
-                    warn!("Machine is in an unusual attitude");
-                    return DirectorLocslState::UnboundKinematics;
-                } else if (roll > 45.0_f32.to_radians() || pitch > 45.0_f32.to_radians())
-                    && yaw == 0.0
-                {
+                if (roll > 45.0_f32.to_radians() || pitch > 45.0_f32.to_radians()) && yaw == 0.0 {
                     warn!("Machine is in an emergency stop condition");
                     return DirectorLocslState::Emergency;
+                } else if (roll > 35.0_f32.to_radians() || pitch > 35.0_f32.to_radians())
+                    && yaw == 0.0
+                {
+                    warn!("Machine is in an unusual attitude");
+                    return DirectorLocslState::UnboundKinematics;
                 }
             }
             _ => {}
